@@ -47,6 +47,51 @@ let do_setmatch f =
         (if bf then "fail-BRUTEFORCE-DISAGREES " else "fail ") ^ hex (ocaml_string a) ^ " " ^ opt_hex e in
   Printf.sprintf "%s calls=%s" verdict calls_s
 
+
+(* C17: replay a schedule through the extracted transition system of the source cache *)
+let do_cache f =
+  let pos = ref 1 in
+  let next () = let v = f.(!pos) in incr pos; v in
+  let nfs = int_of_string (next ()) in
+  let fs_tbl = Hashtbl.create 8 in
+  for _ = 1 to nfs do
+    let name = unhex (next ()) in
+    let c = next () in
+    if c <> "none" then Hashtbl.replace fs_tbl name (unhex c)
+  done;
+  let fs p = match Hashtbl.find_opt fs_tbl (ocaml_string p) with Some c -> Some (coq_string c) | None -> None in
+  let ncalls = int_of_string (next ()) in
+  let calls = List.init ncalls (fun _ -> { c_path = coq_string (unhex (next ())); c_pc = PStart }) in
+  let nwarm = int_of_string (next ()) in
+  let warm = List.init nwarm (fun _ -> let n = unhex (next ()) in (coq_string n, coq_string (Hashtbl.find fs_tbl n))) in
+  let sched_s = next () in
+  let sched = if sched_s = "-" then [] else List.map int_of_string (Stdlib.String.split_on_char ',' sched_s) in
+  let st = ref (warm, calls) in
+  let evs = List.map (fun i ->
+    let before = List.nth (snd !st) i in
+    st := step fs !st (nat_of_int i);
+    let after = List.nth (snd !st) i in
+    match before.c_pc, after.c_pc with
+    | PStart, PDone (Some s) -> "hit:" ^ hex (ocaml_string s)
+    | PStart, PRead -> "miss"
+    | PRead, PInsert s -> "read:" ^ hex (ocaml_string s)
+    | PRead, PDone None -> "readfail"
+    | PInsert _, PDone _ ->
+        (match cache_get before.c_path (fst !st) with
+         | Some s -> "insert:" ^ hex (ocaml_string s) | None -> "insert:none")
+    | PDone _, _ -> "noop"
+    | _ -> "BADSTEP") sched in
+  let results = List.map (fun k -> match k.c_pc with
+    | PDone (Some s) -> "some:" ^ hex (ocaml_string s) | PDone None -> "none" | _ -> "running") (snd !st) in
+  Stdlib.String.concat "," evs ^ " results=" ^ Stdlib.String.concat "," results
+
+let do_guard f =
+  let flags = Buffer.create 16 in
+  let _ = Stdlib.String.fold_left (fun d c ->
+    let d' = guard_step d (match c with 'N' -> GNew | _ -> GDrop) in
+    Buffer.add_char flags (if plain_flag d' then '1' else '0'); d') O f.(1) in
+  Buffer.contents flags
+
 (* the file system for abspath: files listed by `fs` lines *)
 let files : (Stdlib.String.t, unit) Hashtbl.t = Hashtbl.create 16
 
@@ -72,6 +117,12 @@ let handle (line : Stdlib.String.t) : Stdlib.String.t =
         let e = { e_kind = KWildcard; e_line_start = q 3; e_actual = coq_string "ACTUAL"; e_expected = None } in
         "fallback " ^ hex (ocaml_string (fallback_display (coq_string "span_src.rs") [e]))
       end
+  | "cache" -> do_cache f
+  | "guard" -> do_guard f
+  | "styled" ->
+      (* styled <guard ops|-> <no_color> <tty> *)
+      let d = Stdlib.String.fold_left (fun d c -> match c with 'N' -> guard_step d GNew | 'D' | 'F' -> guard_step d GDrop | _ -> d) O f.(1) in
+      if styled (plain_flag d) (f.(2) = "1") (f.(3) = "1") then "1" else "0"
   | "fsclear" -> Hashtbl.reset files; "ok"
   | "fs" -> Hashtbl.replace files (unhex f.(1)) (); "ok"
   | "abspath" | "abspath_old" ->
